@@ -278,6 +278,43 @@ class T(Entity):
         def logic():
             self.q <<= self.a + (-1)
 ''',
+    "reference-built-outside-process": HDR + '''
+class T(Entity):
+    sel = Port.input(Unsigned[2])
+    inv = Port.input(Bit)
+    data = Port.input(BitVector[4])
+    arr_sel = Port.input(Unsigned[1])
+    q = Port.output(Bit, default=False)
+    r = Port.output(BitVector[2], default="00")
+    def architecture(self):
+        mem = Signal[cohdl.Array[BitVector[2], 2]](name="mem")
+        current = self.data[self.sel]
+        elem = mem[self.arr_sel]
+        @std.concurrent
+        def fill():
+            mem[0] <<= self.data[1:0]
+            mem[1] <<= self.data[3:2]
+        @std.sequential
+        def comb():
+            self.q <<= current ^ self.inv
+            self.r <<= elem
+''',
+    "parent-output-feeds-child-input": HDR + '''
+class Sub(Entity):
+    a = Port.input(Bit)
+    y = Port.output(Bit)
+    def architecture(self):
+        @std.concurrent
+        def logic():
+            self.y <<= ~self.a
+class T(Entity):
+    a = Port.input(Bit)
+    hit = Port.output(Bit)
+    seen = Port.output(Bit)
+    def architecture(self):
+        Sub(a=self.a, y=self.hit)
+        Sub(a=self.hit, y=self.seen)
+''',
     "same-template-twice": HDR + '''
 class Sub(Entity):
     a = Port.input(Bit)
